@@ -679,6 +679,17 @@ class RecipeRun:
                     self.near_boundary_transfer = True
                 if plan.get('margin_rel') is not None:
                     self.min_margin_rel = min(self.min_margin_rel, F(plan['margin_rel']))
+                # a broadcast that takes (nearly) everything: what is left in the source is a difference of large numbers, and
+                # whatever is done with that remainder later (a dilute, a fill) sees the source's noise relative to *it*
+                ms_after = plan.get('ms')
+                if self.had_fill and isinstance(ms_after, M.MVessel):
+                    m_before = self.model_of(o)
+                    if isinstance(m_before, M.MVessel):
+                        T0 = W.model.total(m_before, unit)
+                        T1 = W.model.total(ms_after, unit)
+                        if T1 > 0 and T1 < T0 / 100:
+                            slack0 = 40 * W.slack_total(m_before, unit) + F(4, 10 ** 15) * T0 * (plan.get('n_pairs', 1) + 1)
+                            self.noise_rel += min(slack0 / T1, F(1))
         m = self.model_of(o)
         if isinstance(m, M.MPlate):
             cells = self.cells_of(src, cur) or []
